@@ -268,6 +268,7 @@ def config_case(case, rec):
             rec.count("duplicate_table_name_configs")
         expect = []
         colon_expect = {}
+        rows_of = {}  # (si, ti, host) -> (the reference stays in the host's own table, the rows it names)
         R = C = 6
         hosts = [(r, c) for r in range(1, 5) for c in range(1, 5)]
         per_table = max(1, case["refs"] // max(1, len(tabs)))
@@ -285,12 +286,14 @@ def config_case(case, rec):
                 if k < .3:
                     r, c = rng.randrange(R), rng.randrange(C)
                     node = F.cellref(T, host, r, c, fl[0], fl[2], uuid)
+                    rows_of[(si, ti, host)] = (tt is t, [r], False)
                 elif k < .55:
                     r0 = rng.randrange(R - 1)
                     r1 = rng.randint(r0 + 1, R - 1)
                     c0 = rng.randrange(C - 1)
                     c1 = rng.randint(c0 + 1, C - 1)
                     node = F.tract(T, host, r0, r1, c0, c1, fl, uuid)
+                    rows_of[(si, ti, host)] = (tt is t, [r0, r1], fl[0] != fl[1])
                 elif k < .78:
                     r0 = rng.randrange(R)
                     r1 = rng.randint(r0, R - 1)
@@ -298,6 +301,7 @@ def config_case(case, rec):
                     if r0 == r1 and fl[0] != fl[1]:
                         rec.count("one_index_spans_with_unequal_marks")
                     node = F.tract(T, host, r0, r1, None, None, f2, uuid)
+                    rows_of[(si, ti, host)] = (tt is t, [r0, r1], fl[0] != fl[1])
                 elif k < .9:
                     c0 = rng.randrange(C)
                     c1 = rng.randint(c0, C - 1)
@@ -305,6 +309,7 @@ def config_case(case, rec):
                     if c0 == c1 and fl[2] != fl[3]:
                         rec.count("one_index_spans_with_unequal_marks")
                     node = F.tract(T, host, None, None, c0, c1, f2, uuid)
+                    rows_of[(si, ti, host)] = (tt is t, [], False)
                 else:
                     # the other attested range shape: COLON_NODE over two cell references (99 cross-table instances in the fixtures)
                     r0 = rng.randrange(R - 1)
@@ -319,6 +324,7 @@ def config_case(case, rec):
                     t.cell(*host)._formula_id = m._formulas.lookup_key(t._table_id, fa)
                     expect.append((si, ti, host))
                     colon_expect[(si, ti, host)] = (tt._table_id, (r0, r1), (c0, c1), fl)
+                    rows_of[(si, ti, host)] = (tt is t, [r0, r1], fl[0] != fl[1])
                     continue
                 fn = T.ASTNodeArchive(AST_node_type=T.FUNCTION_NODE, AST_function_node_index=168, AST_function_node_numArgs=1)
                 fa = TSCE.FormulaArchive(AST_node_array=T(AST_node=[node, fn]))
@@ -363,6 +369,11 @@ def config_case(case, rec):
                                   {"text": text, "stored": [rws, cls, list(flg)], "resolved": [res[2], res[3], list(res[4])]}, case=c2)
                 rec.case((case["rseed"], si, ti, host, view, "colon"))
             for ev in list(events):
+                if tuple(ev["host"]) != tuple(host) or ev["table_id"] != t._table_id:
+                    # the reference was resolved from another position than the cell the formula was read from
+                    rec.violation("reference_resolved_from_another_host", {"view": view, "what": "table" if ev["table_id"] != t._table_id else "row" if ev["host"][0] != host[0] else "column"},
+                                  {"asked": list(host), "resolved_from": list(ev["host"]), "text": ev.get("text") if not isinstance(ev.get("text"), tuple) else None}, case=c2)
+                    break
                 judge_event(ev, dn, lb, rec, c2, view, "generated")
                 rec.case((case["rseed"], si, ti, host, view))
     read_all(doc, "open")
@@ -388,6 +399,35 @@ def config_case(case, rec):
     if edited:
         rec.count("header_label_edits", edited)
         read_all(doc, "open-after-label-edit")
+    # the host moves: a row is inserted above, or the first row removed, after the references were printed once. The stored
+    # offsets are what they were, so a relative reference is resolved from where the host is now (kept: references into the
+    # host's own table whose rows stay inside it)
+    try:
+        si_, ti_, t_ = tabs[rng.randrange(len(tabs))]
+        down = True  # removing the first row would also take referenced rows (and the last absolute row) out of other tables' references: only the insertion is generated
+        moved = []
+        for (si, ti, host) in expect:
+            if (si, ti) != (si_, ti_) or (si, ti, host) in colon_expect or (si, ti, host) not in rows_of:
+                continue
+            own, rws, mixed = rows_of[(si, ti, host)]
+            if mixed:
+                continue  # one end of the span moves with the host and the other does not: the ends may cross, which no stored document attests
+            if not own or (not down and (host[0] < 1 or any(r < 1 or r > R - 2 for r in rws))):
+                continue
+            moved.append((si, ti, (host[0] + (1 if down else -1), host[1])))
+        if moved and t_.num_header_rows == 0:  # the row goes in above the body, not among the header rows
+            colon_expect = {k_: v_ for k_, v_ in colon_expect.items() if (k_[0], k_[1]) != (si_, ti_)}
+            with warnings.catch_warnings():
+                warnings.simplefilter("ignore")
+                if down:
+                    t_.add_row(start_row=0)
+                else:
+                    t_.delete_row(start_row=0)
+            rec.count("references_read_after_their_host_moved", len(moved))
+            read_all(doc, "open-after-host-moved", moved)
+            expect = [e for e in expect if (e[0], e[1]) != (si_, ti_)] + moved
+    except Exception as e:  # noqa: BLE001 - V9
+        rec.build_failure(f"row shift: {type(e).__name__}: {str(e)[:80]}")
     # tables added after references were printed once: a reference into (and out of) a new table names it like any other
     expect_new = []
     try:
